@@ -475,9 +475,14 @@ def _i4(model: Model, rep: Report):
         return
     loops = [e for e in p.events if e.kind == "loop"]
     if len(loops) != 1 or not isinstance(loops[0].node, ast.For):
-        rep.fail("C19.I4", construct, fn.loc, found=f"{len(loops)} loops", required="one loop over the input",
-                 what="de-duplication is not a single pass over the input", detail="shape")
-        return
+        # known order-losing spellings are violations; any other loop-free shape (a stateful predicate handed to filter, a helper generator ...) is not read
+        v1 = p.value
+        lossy = v1 is not None and subterms(v1, lambda y: y[0] == "call" and y[1] in ("set", "frozenset", ("global", "set")) and len(y[2]) == 1 and y[2][0] == param)
+        if lossy and not loops:
+            rep.fail("C19.I4", construct, fn.loc, found=show(v1), required="first occurrences in input order",
+                     what="de-duplication goes through set(input): the order of the input is lost", detail="shape")
+            return
+        raise AnalysisError(f"unique_in_order: neither the accumulator loop, the comprehension idiom nor list(dict.fromkeys(..)) ({len(loops)} loops; value {show(v1)[:100] if v1 else None}): shape not read")
     lp = loops[0]
     rep.check(lp.term == param, "C19.I4", construct + "[domain]", fn.loc, found=show(lp.term), required=show(param),
               what="the loop does not range over the whole input in its original order", detail="domain")
